@@ -589,6 +589,28 @@ def c11(report, rng, tier, findings):
                                 'rule': {'tag': 0, 'kids': [],
                                          'cond': body + [('cmp', 'eq', ('attr', 'ref', ('var', z)), e)]}}
             case['nested_head'] = True
+        if i % 8 == 7 and len(ids) == 2:
+            # template: a rule variable x appears in the head ONLY inside a nested constructor argument, C(ref=x), the body
+            # is a disjunction of two joins: assignments that differ only in x are different instances
+            x_, y_ = ids
+            z = 90
+            cls = rng.choice([c for c, _ in base['classes']])
+            all_objs = [('o', j) for j, _, _ in base['objs']]
+
+            def jn(f1, f2, op):
+                return ('cmp', op, ('attr', f1, ('var', x_)), ('attr', f2, ('var', y_)))
+            body_t = [('or', jn('a', 'a', rng.choice(('eq', 'gt'))), jn('a', 'a', rng.choice(('le', 'ne', 'ge'))))]
+            args_t = [('nestedc', cls, 'ref', ('var', x_)), rng.choice([('var', y_), ('attr', 'a', ('var', y_))])]
+            if rng.random() < 0.5:
+                args_t.reverse()
+            case = {'id': f'i{i}', 'classes': base['classes'], 'objs': base['objs'], 'vars': base['vars'],
+                    'args': args_t, 'rule': {'tag': 0, 'cond': body_t, 'kids': []}}
+            case['explicit'] = {**case, 'args': [('var', z) if a[0] == 'nestedc' else a for a in args_t],
+                                'vars': list(base['vars']) + [(z, cls, all_objs)],
+                                'rule': {'tag': 0, 'kids': [],
+                                         'cond': body_t + [('cmp', 'eq', ('attr', 'ref', ('var', z)), ('var', x_))]}}
+            case['nested_head'] = True
+            report.count('variable_only_inside_a_nested_argument_disjunctive_body')
         if rng.random() < 0.25:
             case['pre_take'] = rng.randint(1, 3)
         if rng.random() < 0.15:
